@@ -287,7 +287,7 @@ static vf::Verdicts eval(const Spec &s, vf::Ctx &ctx) {
 
 int main(int argc, char **argv) {
   vf::Opts o = vf::parseOpts(argc, argv);
-  gThorough = o.thorough();
+  gThorough = o.thorough() && o.pass != "san";  // the secondary sanitizer pass of the thorough tier uses the quick alphabet
   vf::Check<Spec> c;
   c.property = "C18";
   c.level = "exploration";
